@@ -6,6 +6,11 @@ package main
 // run identical further blocks on both and compare app hashes / results.
 
 import (
+	sdkmath "cosmossdk.io/math"
+	layer2types "github.com/KiraCore/sekai/x/layer2/types"
+	layer2keeper "github.com/KiraCore/sekai/x/layer2/keeper"
+	tokenstypes "github.com/KiraCore/sekai/x/tokens/types"
+	tokenskeeper "github.com/KiraCore/sekai/x/tokens/keeper"
 	"bytes"
 	"encoding/hex"
 	"encoding/json"
@@ -280,6 +285,7 @@ func runC12(r *Rec) {
 	}
 	c12UpgradeWindow(r)
 	c12YearWindow(r)
+	c12TokenCaps(r)
 	r.Mark("c12 done")
 	r.Extra["rule"] = "states populated by real block histories (bank, identity, polls, proposals with votes in different phases, staking pools and delegations, custody records in every second state), exported with ExportAppStateAndValidators and imported into a fresh application by InitChain; raw key/value comparison of every module store, differences grouped by record kind (store + key prefix + lost/invented/changed)"
 }
@@ -532,4 +538,78 @@ func c12YearWindow(r *Rec) {
 		c12RoundTrip(r, w, fmt.Sprintf("inflation-year-window(day %d)@block%d", d+2, w.height))
 	}
 	r.Count(fmt.Sprintf("year-window:round-trips=%d", n))
+}
+
+// c12TokenCaps: the token registry at the edges of its supply caps. A token with an owner and a cap is issued up to part
+// of the cap (owner's free mint and a stranger's paid mint through layer2), then the owner tries to move the cap - below
+// what was issued, to exactly that, in between, above, away - and burns some; the state is exported and re-imported
+// after every step (the importer re-registers every token through UpsertTokenInfo, which has rules of its own).
+func c12TokenCaps(r *Rec) {
+	r.Mark("token registry at its caps")
+	w := NewWorld(WorldOpts{NAcc: 5, NVal: 2, SudoAccs: []int{4}})
+	tms := tokenskeeper.NewMsgServerImpl(w.app.TokensKeeper, w.app.CustomGovKeeper)
+	l2 := layer2keeper.NewMsgServerImpl(w.app.Layer2Keeper)
+	owner, stranger := 2, 3
+	denom := "ku/capped"
+	n := 0
+	step := func(label string, f func(ctx sdk.Context) error) {
+		var err error
+		br := w.Block(nil, BlockOpts{Mid: func(ctx sdk.Context) { err = withCache(ctx, f) }})
+		if br.Panicked != nil {
+			r.Count("token-caps:panicked")
+			return
+		}
+		w.ApplyUpdates(br.Updates)
+		out := "ok"
+		if err != nil {
+			out = "refused"
+		}
+		r.Count("token-caps:" + label + ":" + out)
+		n++
+		c12RoundTrip(r, w, fmt.Sprintf("token-caps(%s:%s)@block%d", label, out, w.height))
+	}
+	upsert := func(by int, cap sdkmath.Int) func(ctx sdk.Context) error {
+		return func(ctx sdk.Context) error {
+			info := w.app.TokensKeeper.GetTokenInfo(ctx, denom)
+			supply := sdk.ZeroInt()
+			if info != nil {
+				supply = info.Supply
+			}
+			_, err := tms.UpsertTokenInfo(sdk.WrapSDKContext(ctx), tokenstypes.NewMsgUpsertTokenInfo(w.addrs[by], denom, "adr20", sdk.NewDecWithPrec(1, 2), true, supply, cap,
+				sdk.ZeroDec(), sdk.OneInt(), false, false, "CAP", "Capped", "", 6, "d", "", "", 0, sdkmath.ZeroInt(), w.addrs[owner].String(), false, "", ""))
+			return err
+		}
+	}
+	issue := func(by int, amt int64) func(ctx sdk.Context) error {
+		return func(ctx sdk.Context) error {
+			_, err := l2.MintIssueTx(sdk.WrapSDKContext(ctx), &layer2types.MsgMintIssueTx{Sender: w.addrs[by].String(), Denom: denom, Amount: sdk.NewInt(amt), Receiver: w.addrs[by].String()})
+			return err
+		}
+	}
+	burn := func(by int, amt int64) func(ctx sdk.Context) error {
+		return func(ctx sdk.Context) error {
+			_, err := l2.MintBurnTx(sdk.WrapSDKContext(ctx), &layer2types.MsgMintBurnTx{Sender: w.addrs[by].String(), Denom: denom, Amount: sdk.NewInt(amt)})
+			return err
+		}
+	}
+	step("create", upsert(4, sdk.NewInt(1000)))
+	step("owner-issues-400", issue(owner, 400))
+	step("stranger-issues-200", issue(stranger, 200))
+	step("cap-below-issued", upsert(owner, sdk.NewInt(500)))
+	step("cap-to-issued", upsert(owner, sdk.NewInt(600)))
+	step("cap-in-between", upsert(owner, sdk.NewInt(800)))
+	step("cap-raised", upsert(owner, sdk.NewInt(5000)))
+	step("cap-removed", upsert(owner, sdk.ZeroInt()))
+	step("sudo-cap-below-issued", upsert(4, sdk.NewInt(100)))
+	step("issue-to-the-cap", func(ctx sdk.Context) error {
+		info := w.app.TokensKeeper.GetTokenInfo(ctx, denom)
+		if info == nil || !info.SupplyCap.GT(info.Supply) {
+			return fmt.Errorf("no room")
+		}
+		return issue(owner, info.SupplyCap.Sub(info.Supply).Int64())(ctx)
+	})
+	step("issue-one-more", issue(owner, 1))
+	step("burn-100", burn(owner, 100))
+	step("cap-below-issued-again", upsert(owner, sdk.NewInt(1)))
+	r.Count(fmt.Sprintf("token-caps:round-trips=%d", n))
 }
